@@ -304,6 +304,12 @@ class LRI(dict):
 
     def update(self, E, **F):
         # E and F are throwback names to the dict() __doc__
+        if isinstance(E, LRI) and E is not self:
+            # NB: reading another cache key by key would take its lock
+            # while holding ours, and two caches updating from each
+            # other would deadlock. Take a snapshot of it first.
+            with E._lock:
+                E = list(dict.items(E))
         with self._lock:
             if E is self:
                 return
